@@ -330,6 +330,10 @@ class Ctx:
         for s in summary["samples"][:2]:
             if len(self.samples) < 8:
                 self.samples.append({"run": label, **s})
+        if summary.get("skipped_after_too_many_crashes"):
+            self.exhaustive = False
+            print("NOTE property=%s run %s: %d cases were not executed after %d workers had crashed or hung" % (
+                self.pid, label, summary["skipped_after_too_many_crashes"], summary.get("worker_restarts", 0)))
         for f in summary["failures"]:
             f["run"] = label
             self.add_failure(f)
